@@ -1739,8 +1739,16 @@ JanetFiber *janet_loop1(void) {
             }
         } else if (sig == JANET_SIGNAL_OK || (task.fiber->flags & (1 << sig))) {
             JanetChannel *chan = janet_channel_unwrap(sv);
-            janet_channel_push(chan, make_supervisor_event(janet_signal_names[sig],
-                               task.fiber, chan->is_threaded), 2);
+            Janet push_err;
+            /* No fiber is running here, so a refusal (the supervisor was closed, the event cannot be packed)
+             * must not be raised: it would unwind out of the loop. Report the task's own failure instead. */
+            janet_chan_lock(chan);
+            if (janet_channel_push_with_lock(chan, make_supervisor_event(janet_signal_names[sig],
+                                             task.fiber, chan->is_threaded), 2, &push_err) == 2) {
+                if (!is_suspended && sig != JANET_SIGNAL_OK) {
+                    janet_stacktrace_ext(task.fiber, res, "");
+                }
+            }
         } else if (!is_suspended) {
             janet_stacktrace_ext(task.fiber, res, "");
         }
@@ -3344,8 +3352,13 @@ static JanetEVGenericMessage janet_go_thread_subr(JanetEVGenericMessage args) {
                 janet_ckeywordv("error"),
                 tstate.payload
             };
-            janet_channel_push((JanetChannel *)supervisor,
-                               janet_wrap_tuple(janet_tuple_n(pair, 2)), 2);
+            /* Still inside the janet_try above: raising here would land in this handler again */
+            Janet push_err;
+            janet_chan_lock((JanetChannel *)supervisor);
+            if (janet_channel_push_with_lock((JanetChannel *)supervisor,
+                                             janet_wrap_tuple(janet_tuple_n(pair, 2)), 2, &push_err) == 2) {
+                janet_eprintf("thread start failure: %v\n", tstate.payload);
+            }
         } else if (flags & 0x1) {
             /* No wait, just print to stderr */
             janet_eprintf("thread start failure: %v\n", tstate.payload);
